@@ -14,9 +14,7 @@ Definition PS (k : kernel) : Prop := forall fd v, k_get k fd = Some v -> ispipe 
   1000 <= fd /\ 1000 <= vpeer v /\ exists p, k_get k (vpeer v) = Some p /\ vpeer p = fd /\
     ((vkind v = K_PIPE_W /\ vkind p = K_PIPE_R) \/ (vkind v = K_PIPE_R /\ vkind p = K_PIPE_W)) /\
     (vkind v = K_PIPE_W -> vpeer_open v = negb (vclosed p)).
-(* every interest entry is enabled *)
-Definition KEn (k : kernel) : Prop := forall e, In e (ep k) -> en_enabled e = true.
-Definition KP (k : kernel) : Prop := KI k /\ PS k /\ 1000 <= next_fd k /\ KEn k.
+Definition KP (k : kernel) : Prop := KI k /\ PS k /\ 1000 <= next_fd k.
 
 Definition shape (v' v : vfd) : Prop :=
   vkind v' = vkind v /\ vpeer v' = vpeer v /\ vclosed v' = vclosed v /\ vpeer_open v' = vpeer_open v.
@@ -128,10 +126,10 @@ Qed.
 Lemma CNT_x : forall X k k', CNT k k' -> CNTx X k k'.
 Proof. intros X k k' H. apply (CNTx_weaken (fun _ => False)); [intros fd []|exact H]. Qed.
 
-Lemma CNT_fields : forall k k', vfds k' = vfds k -> next_fd k' = next_fd k -> (KEn k -> KEn k') -> CNT k k'.
+Lemma CNT_fields : forall k k', vfds k' = vfds k -> next_fd k' = next_fd k -> CNT k k'.
 Proof.
-  intros k k' V N KE (H & P & NX & EN). split; [|split; [lia|]].
-  - split; [|split; [eapply PS_fields; eassumption|split; [lia|apply KE; exact EN]]]. unfold KI, k_get in *. rewrite V, N. exact H.
+  intros k k' V N (H & P & NX). split; [|split; [lia|]].
+  - split; [|split; [eapply PS_fields; eassumption|lia]]. unfold KI, k_get in *. rewrite V, N. exact H.
   - intros fd v _ _ G. exists v. unfold k_get in *. rewrite V. auto.
 Qed.
 
@@ -144,8 +142,8 @@ Qed.
 (* rewriting an existing descriptor, keeping its shape (and counter, except for X) *)
 Lemma CNTx_put : forall k fd v v', k_get k fd = Some v -> shape v' v -> CNTx (fun x => x = fd) k (k_put k fd v').
 Proof.
-  intros k fd v v' G SH (H & P & NX & EN). split; [|split; [cbn; lia|]].
-  - split; [apply KI_put; [exact H|apply H; congruence]|]. split; [eapply PS_put_shape; eassumption|split; [exact NX|exact EN]].
+  intros k fd v v' G SH (H & P & NX). split; [|split; [cbn; lia|]].
+  - split; [apply KI_put; [exact H|apply H; congruence]|]. split; [eapply PS_put_shape; eassumption|exact NX].
   - intros x w _ NXX GX. rewrite k_get_put. destruct (Z.eqb_spec x fd) as [->|N]; [contradiction NXX; reflexivity|].
     exists w. auto.
 Qed.
@@ -160,44 +158,33 @@ Qed.
 
 Lemma CNT_put_low : forall k fd v', fd < 1000 -> ~ ispipe v' -> CNT k (k_put k fd v').
 Proof.
-  intros k fd v' L NP (H & P & NX & EN). split; [|split; [cbn; lia|]].
-  - split; [apply KI_put; [exact H|lia]|]. split; [|split; [exact NX|exact EN]].
+  intros k fd v' L NP (H & P & NX). split; [|split; [cbn; lia|]].
+  - split; [apply KI_put; [exact H|lia]|]. split; [|exact NX].
     apply PS_put_nonpipe; [exact P| |exact NP]. intros v G IP. destruct (P fd v G IP) as (A & _). lia.
   - intros x w F _ GX. rewrite k_get_put. destruct (Z.eqb_spec x fd) as [->|N]; [lia|]. exists w. auto.
 Qed.
 
 Lemma CNT_alloc : forall k kind, kind <> K_PIPE_R -> kind <> K_PIPE_W -> CNT k (snd (k_alloc k kind)).
 Proof.
-  intros k kind N1 N2 (H & P & NX & EN). unfold k_alloc. cbn [snd].
+  intros k kind N1 N2 (H & P & NX). unfold k_alloc. cbn [snd].
   assert (FR : k_get k (next_fd k) = None).
   { destruct (k_get k (next_fd k)) eqn:G; [|reflexivity]. assert (next_fd k < next_fd k) by (apply H; congruence). lia. }
   split; [|split; [cbn; lia|]].
-  - split; [|split; [|split]].
+  - split; [|split].
     + intros x. rewrite k_get_put. cbn [next_fd k_put k_set_vfds k_set_next].
       destruct (Z.eqb_spec x (next_fd k)) as [->|N]; [intros _; lia|]. intros G. specialize (H x G). lia.
     + apply PS_put_nonpipe; [apply (PS_fields k); [reflexivity|exact P]| |unfold ispipe; cbn; tauto].
       intros v G. change (k_get (k_set_next k (next_fd k + 1)) (next_fd k)) with (k_get k (next_fd k)) in G. congruence.
     + cbn. lia.
-    + exact EN.
   - intros x w _ _ GX. rewrite k_get_put. destruct (Z.eqb_spec x (next_fd k)) as [->|N]; [congruence|].
     exists w. split; [exact GX|reflexivity].
 Qed.
 
 Lemma CNT_ctl : forall k op fd ev d, CNT k (fst (k_epoll_ctl k op fd ev d)).
 Proof.
-  intros k op fd ev d. apply CNT_fields.
-  - unfold k_epoll_ctl;
+  intros k op fd ev d. apply CNT_fields; unfold k_epoll_ctl;
     repeat match goal with |- context [if ?c then _ else _] => destruct c | |- context [match ?c with _ => _ end] => destruct c end;
     reflexivity.
-  - unfold k_epoll_ctl;
-    repeat match goal with |- context [if ?c then _ else _] => destruct c | |- context [match ?c with _ => _ end] => destruct c end;
-    reflexivity.
-  - intros EN. destruct (k_epoll_ctl k op fd ev d) as [k' r] eqn:E. cbn [fst].
-    destruct (epoll_ctl_spec _ _ _ _ _ _ _ E) as (_ & _ & EP). intros e I.
-    destruct r as [err|]; [rewrite EP in I; apply EN; exact I|]. cbv zeta in EP.
-    destruct (op =? CTL_ADD); [rewrite EP in I; apply in_app_or in I; destruct I as [I|[<-|[]]]; [apply EN; exact I|reflexivity]|].
-    destruct (op =? CTL_MOD); [rewrite EP in I; apply In_ep_replace in I; destruct I as [->|I]; [reflexivity|apply EN; exact I]|].
-    rewrite EP in I. apply In_ep_remove in I. apply EN. apply I.
 Qed.
 
 Lemma k_open_get' : forall k fd v, k_open k fd = Some v -> k_get k fd = Some v.
@@ -208,7 +195,7 @@ Proof. intros k k' V N H. unfold KI, k_get in *. rewrite V, N. exact H. Qed.
 
 Lemma CNT_close : forall k fd, CNT k (fst (k_close k fd)).
 Proof.
-  intros k fd (H & P & NX & EN). split; [split; [|split; [apply PS_close; exact P|split]]|split].
+  intros k fd (H & P & NX). split; [split; [|split; [apply PS_close; exact P|]]|split].
   - unfold k_close. destruct (k_open k fd) as [v|] eqn:O; cbn [fst]; [|exact H].
     pose proof (k_open_get' _ _ _ O) as G.
     match goal with |- KI (k_set_ep ?K _) => apply (KI_fields K); [reflexivity|reflexivity|] end.
@@ -218,7 +205,6 @@ Proof.
     apply KI_put; [exact K1|]. apply K1. congruence.
   - unfold k_close. destruct (k_open k fd) as [v|]; cbn [fst]; [|exact NX].
     destruct ((vkind v =? K_PIPE_R) || (vkind v =? K_PIPE_W)); [destruct (k_get _ (vpeer v))|]; cbn; exact NX.
-  - intros e I. destruct (k_close_spec k fd) as (_ & _ & SUB). apply EN. apply SUB. exact I.
   - unfold k_close. destruct (k_open k fd) as [v|]; cbn [fst]; [|lia].
     destruct ((vkind v =? K_PIPE_R) || (vkind v =? K_PIPE_W)); [destruct (k_get _ (vpeer v))|]; cbn; lia.
   - intros x w _ _ GX. unfold k_close. destruct (k_open k fd) as [v|] eqn:O; cbn [fst]; [|exists w; auto].
@@ -285,7 +271,7 @@ Proof. reflexivity. Qed.
 Lemma CNT_pipe : forall k, CNT k (fst (k_pipe k)).
 Proof.
   intros k. unfold k_pipe. destruct (emfile (flt k)); cbn [fst]; [apply CNTx_refl|].
-  intros (H & P & NX & EN). unfold k_alloc. cbn [fst snd].
+  intros (H & P & NX). unfold k_alloc. cbn [fst snd].
   set (r := next_fd k). set (w := next_fd k + 1).
   assert (FR : forall x, r <= x -> k_get k x = None).
   { intros x L. destruct (k_get k x) eqn:G; [|reflexivity]. assert (x < next_fd k) by (apply H; congruence). unfold r in L. lia. }
@@ -296,7 +282,7 @@ Proof.
     destruct (Z.eqb_spec x (next_fd k + 1)); [reflexivity|]. destruct (Z.eqb_spec x (next_fd k)); [reflexivity|].
     destruct (Z.eqb_spec x (next_fd k + 1)); [contradiction|]. destruct (Z.eqb_spec x (next_fd k)); [contradiction|]. reflexivity. }
   assert (N4 : next_fd k4 = next_fd k + 2) by (unfold k4; cbn; lia).
-  split; [split; [|split; [|split; [lia|exact EN]]]|split].
+  split; [split; [|split]|split].
   - intros x. rewrite G4, N4. unfold w, r. destruct (Z.eqb_spec x (next_fd k + 1)); [intros _; lia|].
     destruct (Z.eqb_spec x (next_fd k)); [intros _; lia|]. intros G. specialize (H x G). lia.
   - intros x v GX IP. rewrite G4 in GX.
@@ -312,6 +298,7 @@ Proof.
       * destruct (P x v GX IP) as (A & B & p & GP & PP & KK & OO). split; [exact A|split; [exact B|]].
         exists p. rewrite G4. destruct (Z.eqb_spec (vpeer v) w) as [E|_]; [rewrite E, FR in GP; [discriminate|unfold w, r; lia]|].
         destruct (Z.eqb_spec (vpeer v) r) as [E|_]; [rewrite E, FR in GP; [discriminate|lia]|]. auto.
+  - lia.
   - lia.
   - intros x v F _ GX. rewrite G4. destruct (Z.eqb_spec x w) as [->|NW]; [rewrite FR in GX; [discriminate|unfold w, r; lia]|].
     destruct (Z.eqb_spec x r) as [->|NR]; [rewrite FR in GX; [discriminate|lia]|]. exists v. auto.
@@ -369,5 +356,5 @@ Qed.
 Lemma CNT_user_fd : forall k i, 0 <= i < 16 -> CNT k (k_user_fd k i).
 Proof. intros k i I. unfold k_user_fd. apply CNT_put_low; [lia|unfold ispipe; cbn; intros [H|H]; discriminate H]. Qed.
 
-Lemma CNT_clock : forall k c, CNT k (k_set_clock k c). Proof. intros; apply CNT_fields; [reflexivity|reflexivity|intros H; exact H]. Qed.
-Lemma CNT_nwait : forall k n, CNT k (k_set_nwait k n). Proof. intros; apply CNT_fields; [reflexivity|reflexivity|intros H; exact H]. Qed.
+Lemma CNT_clock : forall k c, CNT k (k_set_clock k c). Proof. intros; apply CNT_fields; reflexivity. Qed.
+Lemma CNT_nwait : forall k n, CNT k (k_set_nwait k n). Proof. intros; apply CNT_fields; reflexivity. Qed.
